@@ -62,6 +62,7 @@ def run(ctx):
     labels = {}
     rets = {}
     switches_hist = {}
+    found = []
     for ci, case in enumerate(cases):
         lines = impl[ci][0]
         seq = []
@@ -86,16 +87,24 @@ def run(ctx):
         v = R.judge(case, impl[ci], mod[ci])
         if v is None:
             res.traces_validated += 1
-            continue
+        else:
+            found.append((ci, v))
+    # every failing case has been seen; monitor failures (concrete failing inputs) first, then correspondence breaks
+    found.sort(key=lambda x: (0 if x[1][0] == "impl-monitor" else 1, x[0]))
+    nkind = {}
+    for ci, v in found:
         kind = v[0]
-        if len(res.violations) < 2:
+        nkind[kind] = nkind.get(kind, 0) + 1
+        if nkind[kind] > 3:
+            continue
+        case = cases[ci]
+        if nkind[kind] == 1:
             case = R.shrink(case, kind, exe, model)
         im, mo = R.execute([case], exe, model)
         j = R.judge(case, im[0], mo[0]) or v
         res.violation(j[0], j[1], {"script": case, "impl_out": im[0][0][-400:], "model_out": mo[0][0][-400:],
-                                   "detail": j[2], "replay_cmd": "./check C01 --replay <this file>"})
-        if len(res.violations) >= 5:
-            break
+                                   "detail": j[2], "failing_cases_of_this_kind": len([1 for _, w in found if w[0] == kind]),
+                                   "replay_cmd": "./check C01 --replay <this file>"})
     res.rule = ("one writer thread and one reader thread (second handle on the same ring files, or the same handle) "
                 "executing 1-4 qb_rb_chunk_write and 1-6 read / peek / reclaim calls on the real lib/ringbuffer.c under a "
                 "controlled schedule; hand-made corpus, all schedules with a bounded number of pre-emptions for small "
